@@ -152,6 +152,22 @@ PROPS["C10"] = dict(num=10, labs=["life", "par"], rule=LIFE_RULE + " " + PAR_RUL
     signatures={"10.1": "a handle was not closed exactly once, or was used after its close (also by a goroutine outliving the call)", "10.2": "the returned error does not wrap the injected cause", "10.3": "an error was returned together with a result, or neither", "10.8": "a fatal failure of a handle operation was returned to the run (after it had already recorded a hop, for instance) and the run still reported success with a partial path", "10.7": "a socket the run opened itself (the UDP socket that yields the local address and holds the source port, the TCP port-reservation listener) was still open after the run returned (descriptor count, collector off)", "10.6": "a TCP connection dialled by the SACK run was still open (seen from the peer) after the run returned", "10.4": "a SendProbe failure (also one that was in flight when the destination answer was processed) did not fail the run with its cause", "10.9": "the entry point panicked"},
     trusted_base=PAR_TRUSTED + ["fault injection happens at the Source/Sink seam; the real AF_PACKET / raw-socket code below it is not exercised"], assumptions=[])
 
+PROPS["C10"]["labs"] = PROPS["C10"]["labs"] + ["doc"]
+PROPS["C10"]["rule"] = PROPS["C10"]["rule"] + " " + DOC_RULE
+PROPS["C10"]["signatures"] = dict(PROPS["C10"]["signatures"], **{"10.5": "request level: a failure inside a run or an end-to-end probe did not make the request fail with an error exposing it (it was swallowed), or an error came with a result"})
+PROPS["C10"]["trusted_base"] = PROPS["C10"]["trusted_base"] + DOC_TRUSTED
+PROPS["C03"]["labs"] = PROPS["C03"]["labs"] + ["drv"]
+PROPS["C03"]["rule"] = PROPS["C03"]["rule"] + " " + DRV_RULE
+PROPS["C03"]["signatures"] = dict(PROPS["C03"]["signatures"], **{"4": "driver level: a reply was flagged as the destination's answer (which ends the path there) without being the protocol's proof of arrival from the target, or the reverse"})
+PROPS["C03"]["trusted_base"] = PROPS["C03"]["trusted_base"] + DRV_TRUSTED
+PROPS["C01"]["labs"] = PROPS["C01"]["labs"] + ["par"]
+PROPS["C01"]["rule"] = PROPS["C01"]["rule"] + " " + PAR_RULE
+PROPS["C01"]["signatures"] = dict(PROPS["C01"]["signatures"], **{"1.3": "real TCP run (parameter lab kind 12): a hop was reported although the only inbound errors quoted another source port (quoted-source checking relaxed without being asked for)"})
+PROPS["C06"]["labs"] = PROPS["C06"]["labs"] + ["shared"]
+PROPS["C06"]["rule"] = PROPS["C06"]["rule"] + " " + SHARED_RULE
+PROPS["C06"]["signatures"] = dict(PROPS["C06"]["signatures"], **{"6.6": "concurrent runs over sockets that take the bytes late: a run did not report its own flow's path - the packet that left was not the probe the run had built for that TTL (buffer reused before the socket took it)", "1.2": "composed run on a shared wire: a router of another flow appears among the hops", "11.5": "two concurrent runs used the same flow identifier"})
+PROPS["C07"]["signatures"] = dict(PROPS["C07"]["signatures"], **{"7.4": "the hop list is not the function of the accepted replies that the merge rule and the path shape define (it does not end at the lowest TTL the destination answered: it depends on the order the replies were read in)"})
+PROPS["C19"]["signatures"] = dict(PROPS["C19"]["signatures"], **{"20.5": "a traceroute run of a request was started with a TCP method other than the requested (valid) one", "20.6": "an end-to-end probe was started with a SACK method", "20.9": "crashed"})
 import vlib as _vlib
 PROPS["C14"] = dict(num=14, labs=[], rule="Access table regenerated from the Go source (tools/goextract/accesses.go: the four drivers' sender/receiver threads, the parallel engine, the multi-query aggregator, the reverse-DNS fan-out) checked against the lock discipline inside Coq; "
     "plus the race lab: the harness built with -race runs the real parallel engine over each parallel-capable driver with replies (stale duplicates for TTLs 1, 7, 20) already queued while probes 1..40 are being sent over a wire that adds no synchronisation, "
